@@ -17,26 +17,29 @@ Lens == CASE Pattern = "P322"  -> <<3, 2, 2>>
           [] Pattern = "P3222" -> <<3, 2, 2, 2>>
           [] Pattern = "P52"   -> <<5, 2>>
           [] Pattern = "P25"   -> <<2, 5>>
+          [] Pattern = "P72"   -> <<7, 2>>
+          [] Pattern = "P27"   -> <<2, 7>>
+          [] Pattern = "P222222" -> <<2, 2, 2, 2, 2, 2>>
           [] Pattern = "P22222" -> <<2, 2, 2, 2, 2>>
           [] Pattern = "P23232" -> <<2, 3, 2, 3, 2>>
-AllCanon == <<"a", "b", "c", "d", "e">>
+AllCanon == <<"a", "b", "c", "d", "e", "k">>
 MCCanon == SubSeq(AllCanon, 1, Len(Lens))
 BaseSet == {MCCanon[i] : i \in DOMAIN MCCanon}
 LenOfBase(l) == Lens[CHOOSE i \in DOMAIN MCCanon : MCCanon[i] = l]
 
 \* subset letters: for base letter number i: multi (reordered), single, and (length 3) full permutation
-SubMulti  == [l \in BaseSet |-> CASE l = "a" -> "p" [] l = "b" -> "r" [] l = "c" -> "u" [] l = "d" -> "w" [] l = "e" -> "y"]
-SubSingle == [l \in BaseSet |-> CASE l = "a" -> "q" [] l = "b" -> "s" [] l = "c" -> "v" [] l = "d" -> "x" [] l = "e" -> "z"]
-SubFull   == [l \in BaseSet |-> CASE l = "a" -> "f" [] l = "b" -> "g" [] l = "c" -> "h" [] l = "d" -> "i" [] l = "e" -> "j"]
+SubMulti  == [l \in BaseSet |-> CASE l = "a" -> "p" [] l = "b" -> "r" [] l = "c" -> "u" [] l = "d" -> "w" [] l = "e" -> "y" [] l = "k" -> "m"]
+SubSingle == [l \in BaseSet |-> CASE l = "a" -> "q" [] l = "b" -> "s" [] l = "c" -> "v" [] l = "d" -> "x" [] l = "e" -> "z" [] l = "k" -> "n"]
+SubFull   == [l \in BaseSet |-> CASE l = "a" -> "f" [] l = "b" -> "g" [] l = "c" -> "h" [] l = "d" -> "i" [] l = "e" -> "j" [] l = "k" -> "o"]
 SubsOf(l) == {SubMulti[l], SubSingle[l]} \cup (IF LenOfBase(l) >= 3 THEN {SubFull[l]} ELSE {})
 
 MCItemsOf ==
     LET base == [l \in BaseSet |-> [k \in 1..LenOfBase(l) |-> k]]
         \* length 5: a block whose first and last item are len-1 apart but whose middle is permuted
-        multi == [l \in BaseSet |-> IF LenOfBase(l) = 5 THEN <<2, 4, 3, 5>> ELSE IF LenOfBase(l) = 3 THEN <<3, 1>> ELSE <<2, 1>>]
+        multi == [l \in BaseSet |-> IF LenOfBase(l) = 7 THEN <<6, 2, 7, 1>> ELSE IF LenOfBase(l) = 5 THEN <<2, 4, 3, 5>> ELSE IF LenOfBase(l) = 3 THEN <<3, 1>> ELSE <<2, 1>>]
         single == [l \in BaseSet |-> <<2>>]
         \* length 5: first and last item len-1 apart with an item from outside the block in between
-        full == [l \in BaseSet |-> IF LenOfBase(l) = 5 THEN <<2, 1, 4>> ELSE <<2, 3, 1>>]
+        full == [l \in BaseSet |-> IF LenOfBase(l) = 7 THEN <<3, 6, 4, 5, 7>> ELSE IF LenOfBase(l) = 5 THEN <<2, 1, 4>> ELSE <<2, 3, 1>>]
         letters == BaseSet \cup UNION {SubsOf(l) : l \in BaseSet}
     IN  [d \in letters |->
             IF d \in BaseSet THEN base[d]
